@@ -330,9 +330,28 @@ func exec(line string) hx.Result {
 			}
 			c[i] = v
 		}
-		v, p := callRank(c)
+		// the argument is a view into a larger array (spare capacity behind it): Rank must leave
+		// the set and everything around it as it was
+		const pad, sentinel = 8, -99
+		backing := make([]int, len(c)+2*pad)
+		for i := range backing {
+			backing[i] = sentinel
+		}
+		view := backing[pad : pad+len(c)]
+		copy(view, c)
+		v, p := callRank(view)
 		cl := rankClass(c)
 		obs, viol := project(cl, p, big.NewInt(int64(v)), "Rank(["+hx.Ints(c)+"])")
+		for i := range backing {
+			want := sentinel
+			if i >= pad && i < pad+len(c) {
+				want = c[i-pad]
+			}
+			if backing[i] != want {
+				viol = append(viol, hx.Fail("Rank/wrote-to-argument", "Rank([%s]) changed the caller's array at offset %d relative to the argument (%d -> %d)", hx.Ints(c), i-pad, want, backing[i]))
+				break
+			}
+		}
 		if !increasingNaturals(c) {
 			viol = nil // outside the property's domain (only reachable through shrinking)
 		}
@@ -374,12 +393,40 @@ func exec(line string) hx.Result {
 		var obs []string
 		var viol []hx.OracleViolation
 		calls := 0
+		// every slice any call of the sequence returned stays held, with a snapshot of its
+		// contents: no later call may change it (results of successive calls must not alias)
+		type heldResult struct {
+			call     int
+			tok      string
+			ref, was [][]int
+		}
+		var held []heldResult
+		snapshot := func(ref [][]int) [][]int {
+			was := make([][]int, len(ref))
+			for i, sl := range ref {
+				was[i] = append([]int(nil), sl...)
+			}
+			return was
+		}
+		revalidate := func(idx int, tok string) {
+			for _, h := range held {
+				for i := range h.ref {
+					if hx.Ints(h.ref[i]) != hx.Ints(h.was[i]) {
+						viol = append(viol, hx.Fail("aliasing/earlier-result-changed", "the result of call %d (%s) changed during call %d (%s): slice %d was [%s], is [%s]", h.call, h.tok, idx+1, tok, i, hx.Ints(h.was[i]), hx.Ints(h.ref[i])))
+						return
+					}
+				}
+			}
+		}
 		for idx, tok := range args {
 			if tok == "m" {
 				for _, sl := range lastReturned {
 					for j := range sl {
 						sl[j] = -7 - j
 					}
+				}
+				if n := len(held); n > 0 && len(lastReturned) > 0 {
+					held[n-1].was = snapshot(held[n-1].ref)
 				}
 				obs = append(obs, "m")
 				continue
@@ -396,6 +443,12 @@ func exec(line string) hx.Result {
 				viol = append(viol, v)
 			}
 			calls++
+			if len(viol) == 0 {
+				revalidate(idx, tok)
+			}
+			if len(lastReturned) > 0 {
+				held = append(held, heldResult{idx + 1, tok, lastReturned, snapshot(lastReturned)})
+			}
 		}
 		return hx.Result{Obs: strings.Join(obs, " | "), Nontrivial: calls >= 2, Viol: viol,
 			Buckets: []string{fmt.Sprintf("S:calls<=%d", bucket(calls))}}
@@ -580,15 +633,52 @@ func gen(g *hx.Gen) {
 	emit("T;70")
 	emit("O;1333313333400026 3")
 
-	// every (n,k) with n <= 40 (k up to n+1), both entry points
-	for n := 0; n <= 40; n++ {
+	// every (n,k) with n <= 72 (thorough: 130), k up to n+1, both entry points: all of the table,
+	// and min(k,n-k) = 30..34 on either side of largestK for every n around 62..70
+	smallN := g.Pick(72, 130)
+	for n := 0; n <= smallN; n++ {
 		for k := 0; k <= n+1; k++ {
 			emit("U;%d %d", n, k)
 			emit("C;%d %d", n, k)
 		}
 		emit("C;%d -1", n)
 	}
-	g.Exhaustive("CoeffUint64 and Coeff on every (n,k) with n <= 40, k <= n+1")
+	g.Exhaustive(fmt.Sprintf("CoeffUint64 and Coeff on every (n,k) with n <= %d, k <= n+1", smallN))
+
+	// n at the value boundaries 2^e-1, 2^e, 2^e+1 (e = 5..64), 10^e +- 1, MaxInt/2 +- 1, with k tiny,
+	// n-k tiny (k itself beyond 2^63) and k around n/2
+	var edgeN []uint64
+	for e := uint(5); e <= 64; e++ {
+		var p2 uint64 // e = 64: 0, so that p2-1 = 2^64-1
+		if e < 64 {
+			p2 = 1 << e
+		}
+		for _, n := range []uint64{p2 - 2, p2 - 1, p2, p2 + 1} {
+			if e < 64 || n >= 1<<63 {
+				edgeN = append(edgeN, n)
+			}
+		}
+	}
+	for p10 := uint64(100); p10 < 1<<63; p10 *= 10 {
+		edgeN = append(edgeN, p10-1, p10, p10+1)
+		if p10 > (1<<64-1)/10 {
+			break
+		}
+	}
+	edgeN = append(edgeN, math.MaxInt64/2-1, math.MaxInt64/2, math.MaxInt64/2+1, math.MaxInt64/2+2)
+	for _, n := range edgeN {
+		ks := []uint64{0, 1, 2, 3, n - 3, n - 2, n - 1, n, n + 1, n/2 - 1, n / 2, n/2 + 1, n/2 + 2}
+		for _, k := range ks {
+			if k > n && k != n+1 {
+				continue // wrapped
+			}
+			emit("U;%d %d", n, k)
+			if n <= math.MaxInt64 && k <= math.MaxInt64 {
+				emit("C;%d %d", n, k)
+			}
+		}
+	}
+	g.Exhaustive("CoeffUint64 (and Coeff where the arguments are ints) for n in {2^e-2..2^e+1 : e = 5..64} u {10^e-1..10^e+1} u {MaxInt/2-1..MaxInt/2+2} and k in {0..3, n-3..n+1, n/2-1..n/2+2}")
 
 	// both sides of every threshold: the implementation's own (found by probing where it starts
 	// to panic) and the true ones computed with math/big, each +-3, with the k > n/2 mirror
@@ -631,6 +721,9 @@ func gen(g *hx.Gen) {
 	}
 	emit("T;100")
 	emit("T;1000")
+	for _, n := range []int{127, 128, 129, 255, 256, 257} {
+		emit("T;%d", n)
+	}
 	g.Exhaustive("Coeffs(n) for n = 0..70")
 
 	// random (n,k)
@@ -913,6 +1006,79 @@ func gen(g *hx.Gen) {
 	g.Exhaustive("Unrank at C(l,k)+d, d = -3..1, and Rank of the sets of rank C(l,k)-1..C(l,k)+1, for k = 2..6 and l on a geometric grid (2^j, 3*2^(j-1), randomly offset) up to the largest feasible l (Unrank with k = 2: l <= 3*2^26 in the quick tier, 2^29 in the thorough tier)")
 	if slowSkipped > 0 {
 		g.Note(fmt.Sprintf("%d slow Unrank cases dropped by the step budget", slowSkipped))
+	}
+
+	// ---- Rank on both sides of the points where Coeff starts to refuse (k*C(l,k) > MaxInt) and
+	// where C(l,k) itself leaves int, k = 2..33 (k = 2: the 32-bit boundary l = 2^32), +-3
+	for k := 2; k <= 33; k++ {
+		fit, step := trueThresholds(uint64(k), maxIntB)
+		for _, t := range []uint64{fit, step} {
+			for d := -3; d <= 3; d++ {
+				rankSets(t+uint64(d), k)
+			}
+		}
+	}
+	g.Exhaustive("Rank of the sets of rank C(l,k)-1, C(l,k), C(l,k)+1 for k = 2..33 and l within 3 of the thresholds C(l,k) <= MaxInt and k*C(l,k) <= MaxInt")
+
+	// ---- sizes across the thresholds 8, 16, ..., 1024: Rank of the shifted initial segments
+	// {s..s+k-1} (rank C(s+k,k)-1) and Unrank of small and of large ranks with that many elements
+	for sz := 8; sz <= g.Pick(1024, 4096); sz *= 2 {
+		for _, k := range []int{sz - 1, sz, sz + 1} {
+			for s0 := 0; s0 <= 2; s0++ {
+				strs := make([]string, k)
+				for j := range strs {
+					strs[j] = strconv.Itoa(s0 + j)
+				}
+				emit("R;%s", strings.Join(strs, " "))
+			}
+			if k <= g.Pick(257, 1025) {
+				for _, r := range []uint64{0, 1, uint64(k), uint64(k) + 1, 1000003, 1 << 31, 1 << 62, math.MaxInt64} {
+					unrankCase(r, k)
+				}
+			}
+		}
+	}
+
+	// ---- the band of ranks in which the walk of the top level is left through one of its two
+	// overflow exits (C(l+1,k) > MaxInt): r in [C(fit,k), MaxInt], fit = the largest l with
+	// C(l,k) <= MaxInt, for every k = 3..70, plus fixed large ranks
+	for k := 3; k <= 70; k++ {
+		fit, _ := trueThresholds(uint64(k), maxIntB)
+		lo := binomBig(fit, uint64(k))
+		span := new(big.Int).Sub(maxIntB, lo).Uint64() + 1
+		for i := 0; i < g.Pick(3, 40); i++ {
+			slow(new(big.Int).Add(lo, new(big.Int).SetUint64(rnd.U64()%span)), k, fit)
+		}
+		for _, r := range []uint64{math.MaxInt64, math.MaxInt64 - 1, 1 << 62, 1<<53 - 1, 1<<53 + 1} {
+			slow(new(big.Int).SetUint64(r), k, fit)
+		}
+	}
+
+	// results held while later calls run, sizes going down and up again
+	// (the S exec re-validates every earlier result after every later call)
+	holdSeqs := [][]string{
+		{"T20", "T10", "T5", "T12", "T30"}, {"T66", "T3", "T66", "T40"},
+		{"N1000000,5", "N77,3", "N5,2", "N123456,4", "N99999999,6"},
+		{"N4000,6", "N4001,6", "N4002,6"}, {"N12,2", "T9", "N13,2", "T9", "N12,3"},
+	}
+	for _, h := range holdSeqs {
+		emit("S;%s", strings.Join(h, " "))
+	}
+	for i := 0; i < g.Pick(40, 1000); i++ {
+		n := rnd.Range(3, 7)
+		toks := make([]string, n)
+		unr := rnd.Bool()
+		for j := range toks {
+			if unr {
+				toks[j] = fmt.Sprintf("N%d,%d", rnd.Intn(3000000), []int{1, 2, 3, 4, 7, 8, 9, 15, 16, 17, 31, 33}[rnd.Intn(12)])
+				if toks[j][1] != '0' && strings.HasSuffix(toks[j], ",1") {
+					toks[j] = fmt.Sprintf("N%d,1", rnd.Intn(3000))
+				}
+			} else {
+				toks[j] = fmt.Sprintf("T%d", []int{0, 1, 2, 7, 8, 9, 15, 16, 17, 31, 32, 33, 63, 64, 65, 66}[rnd.Intn(16)])
+			}
+		}
+		emit("S;%s", strings.Join(toks, " "))
 	}
 
 	// ---- sequences of calls inside one process: hidden package-level state, recovered panics
